@@ -1,31 +1,332 @@
-//! C02 — placeholder (not registered in MANIFEST until built).
+//! C02 — parallel execution is invisible: every worker schedule commits the same tick.
+//!
+//! Scheduled party: the worker threads of the parallel executors. Real threads run, but the claim
+//! controller (hook H1) parks every worker at each claim point and releases exactly one per tape
+//! entry, so the unit→worker assignment and claim order are decided by the scenario and replay
+//! exactly. Oracle: equality with the 1-worker commit + the C01 reference model; for the policy
+//! surface, canonical merge of the produced deltas equals the serial baseline.
+
+use std::num::NonZeroUsize;
 
 use serde::{Deserialize, Serialize};
+use warp_core::verif::{install_claim_controller, ClaimController};
+use warp_core::{execute_parallel_with_policy, execute_serial, ExecItem, GraphView, OpOrigin, ParallelExecutionPolicy, WarpOp};
 
-use crate::kernel::{Outcome, PropertySpec, Rng, RunCtx, Scenario, Tier};
+use crate::kernel::{harness_error, Outcome, PropertySpec, Rng, RunCtx, Scenario, Tier};
+use crate::model::refstate::ref_merge;
+use crate::props::c01::{check_against_reference, compare_commit, gen_tick};
+use crate::world::gen::StateSpec;
+use crate::world::ids;
+use crate::world::rules::{exec_fn, N_RULES};
+use crate::world::tick::{ref_tick, run_tick, Cand, EngineCfg, TickResult};
 
 pub const SPEC: PropertySpec = PropertySpec {
     id: "C02",
     level: "exploration",
-    rule: "placeholder",
-    quick_runs: 1,
-    thorough_runs: 1,
-    real_components: &[],
-    stub_components: &[],
-    assumptions: &[],
+    rule: "scenario = C01 tick (state, honest programs on crafted (instance, shard) scopes) + list of (worker count, claim tape) schedules; real worker threads run under the H1 claim controller so the tape decides which worker claims each work unit; tapes: uniform, one-worker-drains-all, round-robin, PCT-style bursts, split-pair; for <=3 workers x <=4 units assignments are drawn without replacement; second surface: execute_parallel_with_policy under all five policies; non-trivial = >=2 work units and >=2 workers that each claimed a unit; distinct = (tick, worker count, unit->worker assignment)",
+    quick_runs: 2_500,
+    thorough_runs: 120_000,
+    real_components: &["parallel::exec::execute_work_queue (real threads, scripted claim order)", "execute_dynamic_per_worker/_per_shard (scripted claim order)", "execute_static_*/dedicated (single outcome per input)", "Engine merge_parallel_deltas + commit", "footprint guard"],
+    stub_components: &["application rules: data-driven interpreter", "OS thread scheduler: replaced by the claim controller baton (one worker runs between claim points)"],
+    assumptions: &["workers share only the atomic claim counter (crate forbids unsafe code), so every observable interleaving is a claim order; overlap of the baton would be reported as a harness error"],
     fault_kinds: &[],
 };
 
 #[derive(Clone, Debug, Serialize, Deserialize)]
+pub struct Schedule {
+    pub workers: usize,
+    pub tape: Vec<u16>,
+}
+
+#[derive(Clone, Debug, Serialize, Deserialize)]
+pub struct PolicyCase {
+    pub policy: u8,
+    pub workers: usize,
+    pub tape: Vec<u16>,
+}
+
+#[derive(Clone, Debug, Serialize, Deserialize)]
 pub struct C02 {
-    pub placeholder: u8,
+    pub state: StateSpec,
+    pub cands: Vec<Cand>,
+    pub legacy: bool,
+    pub rule_order: Vec<u8>,
+    pub schedules: Vec<Schedule>,
+    pub policy_cases: Vec<PolicyCase>,
+}
+
+pub fn gen_tape(rng: &mut Rng, workers: usize, len: usize) -> Vec<u16> {
+    let w = workers.max(1) as u64;
+    match rng.below(6) {
+        0 => vec![rng.below(w) as u16],                                  // one worker drains all
+        1 => (0..workers as u16).collect(),                               // round robin
+        2 => {
+            // PCT-style: long bursts with few change points
+            let changes = rng.urange(1, 3);
+            let mut t = Vec::new();
+            for _ in 0..=changes {
+                let who = rng.below(w) as u16;
+                for _ in 0..rng.urange(1, len.max(2)) {
+                    t.push(who);
+                }
+            }
+            t
+        }
+        3 => {
+            // split pair: two adjacent entries on different workers, rest on one worker
+            let mut t = vec![rng.below(w) as u16; len.max(2)];
+            let i = rng.usize_below(t.len() - 1);
+            t[i] = rng.below(w) as u16;
+            t[i + 1] = ((u64::from(t[i]) + 1 + rng.below(w.max(2) - 1)) % w) as u16;
+            t
+        }
+        _ => (0..len.max(1)).map(|_| rng.below(w) as u16).collect(),
+    }
 }
 
 impl Scenario for C02 {
-    fn generate(_rng: &mut Rng, _tier: Tier, _avoid: bool) -> Self {
-        C02 { placeholder: 0 }
+    fn generate(rng: &mut Rng, tier: Tier, avoid: bool) -> Self {
+        let n_small = rng.urange(2, 14);
+        let (state, cands) = gen_tick(rng, avoid, false, n_small);
+        let mut rule_order: Vec<u8> = (0..N_RULES).collect();
+        rng.shuffle(&mut rule_order);
+        let max_w = if tier == Tier::Thorough && rng.chance(1, 6) { 32 } else { 8 };
+        let n_sched = rng.urange(3, 6);
+        let mut schedules = Vec::new();
+        let small_w = rng.chance(1, 2);
+        for _ in 0..n_sched {
+            let workers = if small_w { rng.urange(2, 3) } else { rng.urange(2, max_w) };
+            let tape = gen_tape(rng, workers, n_small + workers + 2);
+            if !schedules.iter().any(|s: &Schedule| s.workers == workers && s.tape == tape) {
+                schedules.push(Schedule { workers, tape });
+            }
+        }
+        let mut policy_cases = Vec::new();
+        if rng.chance(1, 2) {
+            for policy in 0..5u8 {
+                let workers = rng.urange(1, 6);
+                // dynamic policies claim each of the 256 virtual shards: short cyclic tapes
+                let tape = gen_tape(rng, workers, 8);
+                policy_cases.push(PolicyCase { policy, workers, tape });
+            }
+        }
+        C02 { state, cands, legacy: rng.chance(1, 5), rule_order, schedules, policy_cases }
     }
-    fn execute(&self, _ctx: &mut RunCtx) -> Outcome {
+
+    fn execute(&self, ctx: &mut RunCtx) -> Outcome {
+        let pre = match self.state.build_ref() {
+            Ok(p) => p,
+            Err(e) => return Outcome::violation("harness:ref_state_build", e),
+        };
+        let reference = ref_tick(&pre, &self.cands);
+        let arrival: Vec<usize> = (0..self.cands.len()).collect();
+        let base_cfg = EngineCfg { legacy_scheduler: self.legacy, workers: 1, rule_order: self.rule_order.clone(), other_tx: vec![] };
+        let base = match run_tick(&self.state, &self.cands, &arrival, &base_cfg, None) {
+            Ok(o) => o,
+            Err(e) => return Outcome::violation("state_construction_failed", e),
+        };
+        if let Err(v) = check_against_reference(&pre, &reference, &base, ctx) {
+            return v;
+        }
+        // number of (instance, shard) work units among accepted candidates
+        let mut units: std::collections::BTreeSet<(u8, u8)> = std::collections::BTreeSet::new();
+        for (c, a) in reference.order.iter().zip(&reference.accepted) {
+            if *a {
+                units.insert((c.cand.w, c.cand.shard));
+            }
+        }
+        for (si, s) in self.schedules.iter().enumerate() {
+            let cfg = EngineCfg { workers: s.workers, ..base_cfg.clone() };
+            let obs = match run_tick(&self.state, &self.cands, &arrival, &cfg, Some(&s.tape)) {
+                Ok(o) => o,
+                Err(e) => return Outcome::violation("state_construction_failed", e),
+            };
+            if obs.overlap {
+                harness_error("claim controller observed two workers between claim points (hook placement)");
+            }
+            let label = format!("schedule#{si} workers={} tape={:?} claim_log={:?}", s.workers, s.tape, obs.claim_log);
+            match (&base.result, &obs.result) {
+                (TickResult::Committed(a), TickResult::Committed(b)) => {
+                    if let Err(Outcome::Violation { class, detail }) = compare_commit(a, b, &label) {
+                        return Outcome::violation(class.replace("order_dependent", "schedule_dependent"), detail);
+                    }
+                    if base.post != obs.post {
+                        return Outcome::violation("schedule_dependent:post_state", label);
+                    }
+                }
+                (TickResult::EngineErr(_), TickResult::EngineErr(_)) => {}
+                (a, b) => {
+                    return Outcome::violation("schedule_dependent:result_kind", format!("{label}: 1 worker {a:?} vs {b:?}"));
+                }
+            }
+            ctx.count("time.ticks", 1);
+            ctx.trace_str(&format!("{:?}", obs.claim_log));
+            // reach: assignment signature
+            let claims: Vec<u16> = obs.claim_log.iter().flatten().copied().collect();
+            let n_units = units.len();
+            let assignment: Vec<u16> = claims.iter().take(n_units).copied().collect();
+            let distinct_workers: std::collections::BTreeSet<u16> = assignment.iter().copied().collect();
+            if n_units >= 2 && distinct_workers.len() >= 2 {
+                let mut sig = serde_json::to_vec(&(&self.state, &self.cands)).unwrap_or_default();
+                sig.extend_from_slice(format!("{}:{:?}", s.workers, assignment).as_bytes());
+                ctx.nontrivial(&sig);
+                ctx.hit("reach.units_split_across_workers");
+            }
+            if n_units >= 2 && distinct_workers.len() == 1 {
+                ctx.hit("reach.one_worker_drained_all");
+            }
+            if s.workers > 8 {
+                ctx.hit("reach.workers_above_8");
+            }
+        }
+        // Policy surface on the instance with most accepted candidates.
+        if !self.policy_cases.is_empty() {
+            if let Err(v) = self.policy_surface(&reference, ctx) {
+                return v;
+            }
+        }
         Outcome::Ok
+    }
+
+    fn shrink_candidates(&self) -> Vec<Self> {
+        let mut out = Vec::new();
+        if !self.policy_cases.is_empty() {
+            let mut s = self.clone();
+            s.policy_cases.clear();
+            out.push(s);
+            for i in 0..self.policy_cases.len() {
+                let mut s = self.clone();
+                s.policy_cases = vec![self.policy_cases[i].clone()];
+                if self.policy_cases.len() > 1 {
+                    out.push(s);
+                }
+            }
+        }
+        if self.schedules.len() > 1 {
+            for i in 0..self.schedules.len() {
+                let mut s = self.clone();
+                s.schedules = vec![self.schedules[i].clone()];
+                out.push(s);
+            }
+        }
+        if !self.schedules.is_empty() && !self.policy_cases.is_empty() {
+            let mut s = self.clone();
+            s.schedules.clear();
+            out.push(s);
+        }
+        for ci in 0..self.cands.len() {
+            let mut s = self.clone();
+            s.cands.remove(ci);
+            out.push(s);
+        }
+        for (ii, inst) in self.state.insts.iter().enumerate() {
+            for (pi, (_, _, p)) in inst.progs.iter().enumerate() {
+                if p.steps.len() > 1 {
+                    for si in 0..p.steps.len() {
+                        let mut s = self.clone();
+                        s.state.insts[ii].progs[pi].2.steps.remove(si);
+                        out.push(s);
+                    }
+                }
+            }
+        }
+        for (i, sc) in self.schedules.iter().enumerate() {
+            if sc.workers > 2 {
+                let mut s = self.clone();
+                s.schedules[i].workers = 2;
+                out.push(s);
+            }
+            if sc.tape.len() > 1 {
+                let mut s = self.clone();
+                s.schedules[i].tape.pop();
+                out.push(s);
+            }
+        }
+        out
+    }
+}
+
+fn policy_of(i: u8) -> ParallelExecutionPolicy {
+    match i {
+        0 => ParallelExecutionPolicy::DYNAMIC_PER_WORKER,
+        1 => ParallelExecutionPolicy::DYNAMIC_PER_SHARD,
+        2 => ParallelExecutionPolicy::STATIC_PER_WORKER,
+        3 => ParallelExecutionPolicy::STATIC_PER_SHARD,
+        _ => ParallelExecutionPolicy::DEDICATED_PER_SHARD,
+    }
+}
+
+impl C02 {
+    fn policy_surface(&self, reference: &crate::world::tick::RefTick, ctx: &mut RunCtx) -> Result<(), Outcome> {
+        // choose instance with most accepted (hence mutually independent) candidates
+        let mut best: Option<(u8, usize)> = None;
+        for inst in &self.state.insts {
+            let n = reference.order.iter().zip(&reference.accepted).filter(|(c, a)| **a && c.cand.w == inst.w).count();
+            if best.is_none_or(|(_, m)| n > m) {
+                best = Some((inst.w, n));
+            }
+        }
+        let Some((w, _)) = best else { return Ok(()) };
+        let state = self.state.build().map_err(|e| Outcome::violation("state_construction_failed", e))?;
+        let Some(store) = state.store(&ids::warp(w)) else { return Ok(()) };
+        let view = GraphView::new(store);
+        let items: Vec<ExecItem> = reference
+            .order
+            .iter()
+            .zip(&reference.accepted)
+            .filter(|(c, a)| **a && c.cand.w == w)
+            .enumerate()
+            .map(|(i, (c, _))| ExecItem::new(exec_fn(), c.cand.scope(), OpOrigin { intent_id: i as u64, rule_id: u32::from(c.cand.rule), match_ix: 0, op_ix: 0 }))
+            .collect();
+        let serial: Vec<WarpOp> = execute_serial(view, &items).into_ops_unsorted();
+        let serial_merged = ref_merge(serial);
+        for pc in &self.policy_cases {
+            let workers = NonZeroUsize::new(pc.workers.max(1)).unwrap_or(NonZeroUsize::MIN);
+            let ctrl = ClaimController::new(pc.tape.clone());
+            install_claim_controller(Some(ctrl.clone()));
+            let res = crate::kernel::catch(|| execute_parallel_with_policy(view, &items, workers, policy_of(pc.policy)));
+            install_claim_controller(None);
+            if ctrl.overlap_detected() {
+                harness_error("claim controller overlap on the policy surface");
+            }
+            let deltas = res.map_err(|p| Outcome::violation("policy_exec_panicked", format!("policy {} workers {}: {p}", pc.policy, pc.workers)))?;
+            ctx.count("time.policy_executions", 1);
+            let n_deltas = deltas.len();
+            #[cfg(feature = "delta_validate")]
+            let (flat, real_merge) = {
+                let mut flat: Vec<WarpOp> = Vec::new();
+                let mut copies = Vec::new();
+                for d in deltas {
+                    let ops = d.into_ops_unsorted();
+                    flat.extend(ops.iter().cloned());
+                    let mut nd = warp_core::TickDelta::new();
+                    for op in ops {
+                        nd.emit(op);
+                    }
+                    copies.push(nd);
+                }
+                (flat, Some(warp_core::merge_deltas_ok(copies)))
+            };
+            #[cfg(not(feature = "delta_validate"))]
+            let flat: Vec<WarpOp> = deltas.into_iter().flat_map(warp_core::TickDelta::into_ops_unsorted).collect();
+            let merged = ref_merge(flat);
+            if merged != serial_merged {
+                return Err(Outcome::violation(
+                    "policy_dependent:merged_ops",
+                    format!("policy {} workers {} tape {:?}: merged ops differ from serial baseline ({} deltas)", pc.policy, pc.workers, pc.tape, n_deltas),
+                ));
+            }
+            #[cfg(feature = "delta_validate")]
+            if let (Some(Ok(real)), Ok(exp)) = (&real_merge, &serial_merged) {
+                if real != exp {
+                    return Err(Outcome::violation("policy_dependent:merge_deltas", format!("policy {} workers {}", pc.policy, pc.workers)));
+                }
+            }
+            let claims: usize = ctrl.claim_log().iter().map(Vec::len).sum();
+            if claims > 0 {
+                ctx.hit("reach.policy_dynamic_claims_scripted");
+            }
+        }
+        Ok(())
     }
 }
